@@ -100,7 +100,7 @@ REQUIRED_CLASSES = (
     + ["binw/fwhm=fine", "binw/fwhm=medium", "binw/fwhm=coarse", "stark:gauss", "stark:lorentz", "stark:voigt",
        "pol:no", "pol:pi", "pol:sigma", "B:0", "B:par", "B:perp", "B:oblique", "doppler:zero", "doppler:red", "doppler:blue", "doppler:across",
        "zero-width:Ts=neg", "zero-width:Ts=zero", "zero-width:beam-T=zero", "zero-width:width=neg", "zero-width:width=zero",
-       "radiance:0", "ratio-checked", "pi+sigma-checked", "adds-checked", "partial-window", "integrator-history"]
+       "radiance:0", "ratio-checked", "pi+sigma-checked", "adds-checked", "partial-window", "integrator-history", "stark-sequence"]
     + ["ratio-checked:%s" % m for m in ("MultipletLineShape", "ZeemanTriplet", "ParametrisedZeemanTriplet", "ZeemanMultiplet",
                                         "StarkBroadenedLine", "BeamEmissionMultiplet")]
 )
@@ -145,6 +145,10 @@ def cases(tier):
                 out.append({"model": prim, "label": prim, "width": w, "ratio": r})
         for w in (0.0, -0.3):
             out.append({"model": prim, "label": prim, "width": w, "ratio": 1.0})
+    # Stark models built with the constructor's default integrator, evaluated alternately with different Lorentzian widths
+    for i, b in enumerate(bf[:2]):
+        out.append({"model": "stark-sequence", "label": "StarkBroadenedLine", "b": list(b), "ts": ts[min(3, len(ts) - 1)], "el": mass[0], "vel": list(vel[0]),
+                    "stark": list(STARK_COEFF[tier][0])})
     # the per-bin integrator of the Lorentzian part has setters: every way of reaching one configuration must
     # integrate like an integrator constructed with it (engine-H style family inside this lattice check)
     finals = INTEGRATOR_FINALS[tier]
@@ -161,6 +165,42 @@ INTEGRATOR_FINALS = {
     "quick": [(1, 50, 1e-5), (4, 40, 1e-5), (6, 6, 1e-5), (2, 10, 1e-8)],
     "thorough": [(1, 50, 1e-5), (4, 40, 1e-5), (6, 6, 1e-5), (2, 10, 1e-8), (3, 30, 1e-3), (12, 12, 1e-5), (1, 3, 1e-5)],
 }
+
+
+def _run_stark_sequence(case):
+    """Several StarkBroadenedLine models that rely on the constructor's default integrator are evaluated alternately (different
+    electron densities = different Lorentzian widths); every spectrum must equal that of an identically configured model that was
+    given its own new integrator (those are the models the lattice part compares with the closed forms)."""
+    import numpy as np
+    from raysect.optical import Spectrum
+    nes = [(2e20, 5.0), (2e19, 5.0), (6e20, 20.0)]
+    base = {k: case[k] for k in ("b", "ts", "el", "vel", "stark")}
+    own, dflt = [], []
+    for ne, te in nes:
+        c1 = dict(base, model="StarkBroadenedLine", ne=ne, te=te)
+        own.append(_build(c1))
+        dflt.append(_build(dict(c1, default_integrator=True))[0])
+    viol, n, nontrivial = [], 0, []
+    d = (0.3, 0.5, -0.8)
+    order = [0, 1, 2, 0, 1, 2, 1, 0]
+    for step, i in enumerate(order):
+        adders_own, p = own[i]
+        wl = p["wl"]
+        for pol in POLS:
+            if pol not in adders_own:
+                continue
+            for (lo, hi, bins) in ((wl - 6.0, wl + 6.0, 64), (wl - 0.7, wl + 0.9, 7)):
+                n += 1
+                a = np.array(dflt[i][pol](1.5, d, Spectrum(lo, hi, bins)).samples, dtype=float)
+                b = np.array(adders_own[pol](1.5, d, Spectrum(lo, hi, bins)).samples, dtype=float)
+                nontrivial.append(("stark-seq", tuple(case["b"]), step, pol, bins))
+                if not np.allclose(a, b, rtol=1e-12, atol=1e-15 * max(float(b.max()), 1e-300)):
+                    viol.append({"sig": "C02:StarkBroadenedLine:default-integrator:evaluation-sequence:differs-from-model-with-its-own-integrator",
+                                 "what": "step %d of the alternating sequence %s (n_e = %g): model built with the default integrator vs the same model with a new integrator; pol=%s, %d bins"
+                                         % (step, order, nes[i][0], pol, bins), "expected": b[:8].tolist(), "observed": a[:8].tolist()})
+                    break
+    return {"viol": viol[:3], "classes": ["stark-sequence"], "n": n, "outcome": ("stark-sequence", tuple(case["b"]), n, len(viol)),
+            "transitions": n, "nontrivial": nontrivial}
 
 
 def _run_integrator_history(case):
@@ -450,8 +490,12 @@ def _build(case):
     elif model == "StarkBroadenedLine":
         p.update(stark=tuple(case["stark"]), ne=ne, te=te)
         for pol in POLS:
-            models[pol] = cm.StarkBroadenedLine(line, wl, sp, plasma, ad, stark_model_coefficients=tuple(case["stark"]),
-                                                integrator=GaussianQuadrature(), polarisation=pol)
+            if case.get("default_integrator"):
+                # the constructor's own default integrator (one object shared by every model built without an integrator)
+                models[pol] = cm.StarkBroadenedLine(line, wl, sp, plasma, ad, stark_model_coefficients=tuple(case["stark"]), polarisation=pol)
+            else:
+                models[pol] = cm.StarkBroadenedLine(line, wl, sp, plasma, ad, stark_model_coefficients=tuple(case["stark"]),
+                                                    integrator=GaussianQuadrature(), polarisation=pol)
     else:
         raise ValueError(model)
     keep = (plasma, sp)
@@ -487,6 +531,8 @@ def run_case(case):
     tier = case.get("tier", "quick")
     if model == "integrator-history":
         return _run_integrator_history(case)
+    if model == "stark-sequence":
+        return _run_stark_sequence(case)
     adders, p = _build(case)
     reffn = ls.MODELS[model]
     acc = _Acc()
